@@ -186,7 +186,7 @@ def run(tier, seed):
         kind, dom = meta[spec.name]
         n = dom[1] - dom[0] + 1 if kind == 'i' else len(dom)
         return [float(r.randrange(n))]
-      return [r.choice([0.0, 1.0, 0.5, -0.3, 1.7, 1e9, -1e9, 0.999999, 1e-9, 0.25]) for _ in range(spec.num_dimensions)]
+      return [r.choice([0.0, 1.0, 0.5, -0.3, 1.7, 1e9, -1e9, 0.999999, 1e-9, 0.25, math.inf, -math.inf, 1.7e308, -1.7e308, 3e38]) for _ in range(spec.num_dimensions)]
     arr = np.array([sum((column_values(s) for s in conv.output_specs), []) for _ in range(6)], dtype=float)
     try:
       decoded = conv.to_parameters(arr)
